@@ -46,6 +46,7 @@ void h_C19_bi##W##_next(void)							\
 	int r = bi##W##_next(&it, &bi);						\
 	if (it != 0U) {								\
 		ASSERT(CUR_OK_##W(&bi, it), "bi" #W "_next: cursor stays valid"); \
+		ASSERT(it > c && it <= 1000U && -W <= r && r <= W, "bi" #W "_next: the cursor strictly advances, the value is in range (the form call sites use)"); \
 		ASSERT(HAS_##W(&bi, r), "bi" #W "_next: the delivered value is a member"); \
 		ASSERT(!BEFORE_##W(&bi, c, r) && BEFORE_##W(&bi, it, r), "bi" #W "_next: the delivered value lay at or after the old cursor and lies before the new one (delivered once)"); \
 		ASSERT(!(HAS_##W(&bi, q) && !BEFORE_##W(&bi, c, q) && q != r) || !BEFORE_##W(&bi, it, q), "bi" #W "_next: no other undelivered member is skipped"); \
